@@ -65,6 +65,49 @@ def f_ods_empty_cols_repeated(n):
     return "ods", data, u
 
 
+def f_ods_empty_run_then_value(n):
+    # the reader's cap for long runs of empty cells must hold wherever the run stands: here a value follows it in the same row
+    # - as a plain cell, behind a run of covered cells, inside a row group and in a header-rows block
+    run = f'<table:table-cell table:number-columns-repeated="{n}"/>'
+    cov = f'<table:covered-table-cell table:number-columns-repeated="{n}"/>'
+    val = '<table:table-cell office:value-type="string"><text:p>{}</text:p></table:table-cell>'
+    row = "<table:table-row>" + val.format("a") + "{}" + val.format("x") + "</table:table-row>"
+    data, u = _odf("ods", '<office:spreadsheet><table:table table:name="s">'
+                   + "<table:table-header-rows>" + row.format(run) + "</table:table-header-rows>"
+                   + row.format(run) + row.format(cov) + row.format(run + val.format("m") + run)
+                   + "<table:table-row-group>" + row.format(run) + "</table:table-row-group>"
+                   + "</table:table></office:spreadsheet>")
+    return "ods", data, u
+
+
+def f_ods_empty_rows_then_value(n):
+    # ... and the cap for runs of empty rows, with a row of values after the run
+    data, u = _odf("ods", f'<office:spreadsheet><table:table table:name="s"><table:table-row><table:table-cell office:value-type="string"><text:p>a</text:p></table:table-cell></table:table-row>'
+                   f'<table:table-row table:number-rows-repeated="{n}"><table:table-cell table:number-columns-repeated="{n}"/></table:table-row>'
+                   f'<table:table-row><table:table-cell office:value-type="string"><text:p>x</text:p></table:table-cell></table:table-row></table:table></office:spreadsheet>')
+    return "ods", data, u
+
+
+def _doc_with_dib(width, height, bpp, size_image, pixels=24):
+    """A .doc whose WordDocument stream ends in a plausible BITMAPINFOHEADER (40 bytes, one plane, uncompressed) that *declares*
+    width x height x bpp (or biSizeImage) and is followed by ``pixels`` bytes only: the declared picture does not fit into what is there."""
+    from vlib.gen import cfb, docs
+    data, _ = docs.build("doc", 1)
+    streams = dict(cfb.read_cfb(data))
+    hdr = struct.pack("<IiiHHIIiiII", 40, width, height, 1, bpp, 0, size_image, 2835, 2835, 0, 0)
+    streams["WordDocument"] = streams["WordDocument"] + b"\x00" * 8 + hdr + b"\x7f" * pixels
+    out = cfb.make_cfb(streams)
+    return "doc", out, len(out)
+
+
+def f_doc_dib_declared_dimensions(n):
+    return _doc_with_dib(n, n, 32, 0)                 # n x n pixels of 4 bytes declared, 24 bytes present
+
+
+def f_doc_dib_declared_size_image(n):
+    return _doc_with_dib(16, 16, 24, n * MIB)         # biSizeImage = n MiB declared for a 16 x 16 picture
+
+
 def f_odt_space_count(n):
     data, u = _odf("odt", f'<office:text><text:p>a<text:s text:c="{n}"/>b</text:p></office:text>')
     return "odt", data, u
@@ -540,6 +583,10 @@ FAMILIES = {
     "ods-columns-repeated-nonempty": (f_ods_cols_repeated, [1_000_000, 2_000_000, 4_000_000, 8_000_000], "count"),
     "ods-rows-repeated-nonempty": (f_ods_rows_repeated, [250_000, 500_000, 1_000_000, 2_000_000], "count"),
     "ods-columns-repeated-empty": (f_ods_empty_cols_repeated, [250_000, 500_000, 1_000_000, 2_000_000], "count"),
+    "ods-empty-run-then-value": (f_ods_empty_run_then_value, [1_000_000, 4_000_000, 16_000_000], "count"),
+    "ods-empty-rows-then-value": (f_ods_empty_rows_then_value, [1_000_000, 4_000_000, 16_000_000], "count"),
+    "doc-dib-declared-dimensions": (f_doc_dib_declared_dimensions, [2_500, 5_000, 10_000], "count"),
+    "doc-dib-declared-size-image": (f_doc_dib_declared_size_image, [64, 256, 1_024], "count"),
     "odt-space-count": (f_odt_space_count, [25_000_000, 50_000_000, 100_000_000, 200_000_000], "count"),
     "odp-space-count": (f_odp_space_count, [25_000_000, 50_000_000, 100_000_000, 200_000_000], "count"),
     "odt-table-cell-and-row-repeated": (f_odt_table_cell_repeated, [2_000_000, 4_000_000, 8_000_000, 16_000_000], "count"),
